@@ -16,7 +16,7 @@ use ark_poly::{
 use ark_poly_commit::{
     hyrax::HyraxPC,
     ipa_pc::InnerProductArgPC,
-    linear_codes::{LinearCodePCS, MultilinearBrakedown, MultilinearLigero, UnivariateLigero},
+    linear_codes::{LigeroPCParams, LinearCodePCS, MultilinearBrakedown, MultilinearLigero, UnivariateLigero},
     marlin_pc::MarlinKZG10,
     marlin_pst13_pc::MarlinPST13,
     sonic_pc::SonicKZG10,
@@ -164,6 +164,17 @@ pub trait Scheme: Sized + 'static {
     fn default_comm_bound() -> Option<usize> {
         None
     }
+    /// A world built from the scheme's PUBLIC parameter constructor instead of setup / trim (linear-code schemes:
+    /// other security levels, rates that are not powers of two, well-formedness check off). None: use setup / trim.
+    fn custom_world(_cfg: &Cfg, _rng: &mut rand_chacha::ChaCha20Rng) -> Option<crate::scen::World<Self>> {
+        None
+    }
+    /// Does the transcript bind a proof for `p` only through a handful of small column indices (linear codes with
+    /// the well-formedness check off and a very short codeword)? Then a proof may legitimately verify under another
+    /// transcript state, with probability n^-t.
+    fn transcript_binds_weakly(_w: &crate::scen::World<Self>, _p: &Self::P) -> bool {
+        false
+    }
     /// KZG-style proofs: move the blinding evaluation of proof `a` onto proof `b` (the sum of the two is
     /// unchanged). Returns false if the scheme has no such field or `a` carries no non-zero blinding.
     fn move_blinding(
@@ -254,6 +265,23 @@ pub fn pt_fe<F: PrimeField>(rng: &mut impl RngCore) -> F {
 /// sums, matrix shapes) lie far above the small scenarios that make up the bulk of the workloads.
 pub static LARGE: std::sync::atomic::AtomicBool = std::sync::atomic::AtomicBool::new(false);
 
+/// When set, `make_world` builds linear-code worlds from the public parameter constructors half of the time.
+pub static CUSTOM_PARAMS: std::sync::atomic::AtomicBool = std::sync::atomic::AtomicBool::new(false);
+
+pub fn set_custom_params(on: bool) {
+    CUSTOM_PARAMS.store(on, std::sync::atomic::Ordering::Relaxed);
+}
+
+fn ligero_custom(rng: &mut rand_chacha::ChaCha20Rng) -> Option<LigeroPCParams<LFr, MtParams, ColHasher<LFr>>> {
+    if !CUSTOM_PARAMS.load(std::sync::atomic::Ordering::Relaxed) || rng.next_u32() % 2 == 0 {
+        return None;
+    }
+    let sec = [128usize, 100, 64][below(rng, 3)];
+    let rho = [2usize, 3, 4, 5, 6, 7, 8][below(rng, 7)];
+    let wf = rng.next_u32() % 3 != 0;
+    Some(LigeroPCParams::new(sec, rho, wf, (), (), ()))
+}
+
 pub fn is_large() -> bool {
     LARGE.load(std::sync::atomic::Ordering::Relaxed)
 }
@@ -292,9 +320,12 @@ pub fn large_cfg(kind: Kind, bounds: bool, rng: &mut impl RngCore, thorough: boo
 fn uni_cfg(rng: &mut impl RngCore, with_bounds: bool, bounds_le_supported: bool, max_cap: usize) -> Cfg {
     let max_degree = skewed(rng, 1, max_cap);
     let supported_degree = if rng.next_u32() % 3 == 0 { max_degree } else { skewed(rng, 1, max_degree) };
-    let supported_hiding = match rng.next_u32() % 4 {
-        0 => 0,
-        1 => 1,
+    let supported_hiding = match rng.next_u32() % 8 {
+        0 | 1 => 0,
+        2 | 3 => 1,
+        // the largest hiding bounds the parameters admit
+        4 => supported_degree,
+        5 => max_degree,
         _ => range(rng, 1, supported_degree.max(1)),
     };
     let enforced = if with_bounds {
@@ -746,6 +777,14 @@ impl Scheme for UniLigeroS {
     const KIND: Kind = Kind::Univariate;
     const BOUNDS: bool = false;
     const HIDING: bool = false;
+    fn custom_world(cfg: &Cfg, rng: &mut rand_chacha::ChaCha20Rng) -> Option<crate::scen::World<Self>> {
+        let ck = ligero_custom(rng)?;
+        Some(crate::scen::World { cfg: cfg.clone(), pp: ck.clone(), ck: ck.clone(), vk: ck })
+    }
+    fn transcript_binds_weakly(w: &crate::scen::World<Self>, p: &Self::P) -> bool {
+        use ark_poly_commit::linear_codes::LinCodeParametersInfo;
+        !w.ck.check_well_formedness() && p.degree() + 1 < 64
+    }
     fn gen_cfg(rng: &mut impl RngCore, thorough: bool) -> Cfg {
         if let Some(c) = large_cfg(Self::KIND, Self::BOUNDS, rng, thorough) {
             return c;
@@ -780,6 +819,14 @@ impl Scheme for MlLigeroS {
     const KIND: Kind = Kind::Multilinear;
     const BOUNDS: bool = false;
     const HIDING: bool = false;
+    fn custom_world(cfg: &Cfg, rng: &mut rand_chacha::ChaCha20Rng) -> Option<crate::scen::World<Self>> {
+        let ck = ligero_custom(rng)?;
+        Some(crate::scen::World { cfg: cfg.clone(), pp: ck.clone(), ck: ck.clone(), vk: ck })
+    }
+    fn transcript_binds_weakly(w: &crate::scen::World<Self>, p: &Self::P) -> bool {
+        use ark_poly_commit::linear_codes::LinCodeParametersInfo;
+        !w.ck.check_well_formedness() && (1usize << p.num_vars) < 64
+    }
     fn gen_cfg(rng: &mut impl RngCore, thorough: bool) -> Cfg {
         if let Some(c) = large_cfg(Self::KIND, Self::BOUNDS, rng, thorough) {
             return c;
@@ -811,6 +858,18 @@ impl Scheme for BrakedownS {
     const BOUNDS: bool = false;
     const HIDING: bool = false;
     const WEIGHT: u64 = 2;
+    fn custom_world(cfg: &Cfg, rng: &mut rand_chacha::ChaCha20Rng) -> Option<crate::scen::World<Self>> {
+        if !CUSTOM_PARAMS.load(std::sync::atomic::Ordering::Relaxed) || rng.next_u32() % 2 == 0 {
+            return None;
+        }
+        let wf = rng.next_u32() % 3 != 0;
+        let ck = ark_poly_commit::linear_codes::BrakedownPCParams::<LFr, MtParams, ColHasher<LFr>>::default(rng, 1usize << cfg.num_vars.unwrap_or(1), wf, (), (), ());
+        Some(crate::scen::World { cfg: cfg.clone(), pp: ck.clone(), ck: ck.clone(), vk: ck })
+    }
+    fn transcript_binds_weakly(w: &crate::scen::World<Self>, p: &Self::P) -> bool {
+        use ark_poly_commit::linear_codes::LinCodeParametersInfo;
+        !w.ck.check_well_formedness() && (1usize << p.num_vars) < 64
+    }
     fn gen_cfg(rng: &mut impl RngCore, thorough: bool) -> Cfg {
         if let Some(c) = large_cfg(Self::KIND, Self::BOUNDS, rng, thorough) {
             return c;
